@@ -176,3 +176,16 @@ func (e EnumSchema[S, T]) asType(d any) (S, T, error) {
 	unserializedData := dValue.Convert(unserializedType).Interface().(T)
 	return serializedData, unserializedData, nil
 }
+
+// enumValuesOf returns the values an enum schema offers (the keys of its value map), whatever its Go value type is.
+func enumValuesOf(enum Type) []reflect.Value {
+	v := reflect.Indirect(reflect.ValueOf(enum))
+	if v.Kind() != reflect.Struct {
+		return nil
+	}
+	values := v.FieldByName("ValidValuesMap")
+	if !values.IsValid() || values.Kind() != reflect.Map {
+		return nil
+	}
+	return values.MapKeys()
+}
